@@ -241,7 +241,10 @@ class CorrStub:
 
 def _eq_entry(got, exp):
     if isinstance(got, (S, SI)) or isinstance(exp, (S, SI)):
-        return S.of(got) == S.of(exp)
+        g, e = S.of(got), S.of(exp)
+        if not (g.is_concrete() and e.is_concrete()):
+            return g == e
+        got, exp = complex(g), complex(e)        # concrete validation run: doubles are kept as they are
     return abs(complex(got) - complex(exp)) <= 1e-9 * (1 + abs(complex(exp)))
 
 
@@ -329,7 +332,7 @@ class H2(Case):
         with patched({SD + "._compute_ordered_nt_correlations": stub}), warnings.catch_warnings(), _quiet():
             warnings.simplefilter("ignore")
             if self.api == "nt":
-                ops_order = ["left", "right", "left"][:n]
+                ops_order = (["left", "right", "left", "right", "left"])[:n]
                 ret_times, corr = sd.compute_correlations_nt(system, pt, list(ops), list(specs), list(ops_order),
                                                              initial_state=rho0, start_time=start, dt=dt_user,
                                                              progress_type="silent")
